@@ -136,7 +136,7 @@ func c09Flood(c *core.Case, ms *mesh, maxDeliveries int, check bool) c09Result {
 					vn.Drop(i)
 					vn.Drop(j)
 				}
-				if at := core.OneOf(c, "pair.point", "", "instance.Identity", "instance.State", "instance.Peering", "instance.Switch", "instance.RoutingTable"); at == "" {
+				if at := core.OneOf(c, "pair.point", "", "instance.Identity", "instance.State", "instance.Peering", "instance.Switch", "instance.RoutingTable", "link.IsClosing", "link.IsClosing"); at == "" {
 					fl.To.Gate.Arm(c.Int("pair.any-call", 0, 20))
 				} else {
 					fl.To.Gate.ArmAt(at, c.Uniform("pair.call", 0, 6))
